@@ -171,12 +171,20 @@ func runC12Real(w *World, name string, script []c12RealOp) {
 	mapper.Add(gvkConfigMap, meta.RESTScopeNamespace)
 	mapper.Add(gvkSecret, meta.RESTScopeNamespace)
 	c := dynamiccache.NewCache(&rest.Config{Host: srv.srv.URL}, w.Scheme, mapper, nil)
-	handlers := []*countingHandler{{seen: map[string]int{}}, {seen: map[string]int{}}}
+	// three handlers: two sources of one controller (controller-runtime starts all sources of a controller with the
+	// same work queue) and one source of another controller
+	handlers := []*countingHandler{{seen: map[string]int{}}, {seen: map[string]int{}}, {seen: map[string]int{}}}
 	rootCtx, rootCancel := context.WithCancel(context.Background())
 	defer rootCancel()
-	for _, h := range handlers {
-		q := workqueue.NewTypedRateLimitingQueue(workqueue.DefaultTypedControllerRateLimiter[reconcile.Request]())
-		defer q.ShutDown()
+	qA := workqueue.NewTypedRateLimitingQueue(workqueue.DefaultTypedControllerRateLimiter[reconcile.Request]())
+	qB := workqueue.NewTypedRateLimitingQueue(workqueue.DefaultTypedControllerRateLimiter[reconcile.Request]())
+	defer qA.ShutDown()
+	defer qB.ShutDown()
+	for i, h := range handlers {
+		q := qA
+		if i == 2 {
+			q = qB
+		}
 		must(c.Source(h).Start(rootCtx, q))
 	}
 	must(c.Start(rootCtx))
@@ -234,7 +242,14 @@ func runC12Real(w *World, name string, script []c12RealOp) {
 			srv.add(resOf[op.Kind], name)
 			key := kinds[op.Kind].Kind + "/" + name
 			if owned {
-				eventually(func() bool { return handlers[0].count(key) > 0 && handlers[1].count(key) > 0 })
+				eventually(func() bool {
+					for _, h := range handlers {
+						if h.count(key) == 0 {
+							return false
+						}
+					}
+					return true
+				})
 			} else {
 				time.Sleep(30 * time.Millisecond)
 			}
